@@ -1198,6 +1198,34 @@ def condition_inventory(P, files):
             continue
         body = P.body(fn)
         gx = None
+        # predicates: a closure / function returning bool contributes the comparison(s) that define its result
+        if fn['ret'] == 'bool':
+            gx = GuardExtractor(body)
+            for d in body.defs.get(0, []):
+                rel = None
+                if d[0] == 'st' and d[1]['k'] == 'bin':
+                    from .guards import CMP
+                    if d[1]['op'] in CMP:
+                        rel = (CMP[d[1]['op']], gx.o.op_str(d[1]['a']), gx.o.op_str(d[1]['b']))
+                elif d[0] == 'st' and d[1]['k'] in ('use', 'un'):
+                    o_ = d[1].get('o') or d[1].get('a')
+                    if o_ and o_['k'] in ('copy', 'move') and not o_['pl']['p']:
+                        rel = gx.cond_of_local(o_['pl']['l'])
+                elif d[0] == 'call':
+                    nm = callee_path(d[1])
+                    if re.search(r'PartialEq::(eq|ne)$|PartialOrd::(lt|le|gt|ge)$', nm):
+                        r0 = {'eq': '==', 'ne': '!=', 'lt': '<', 'le': '<=', 'gt': '>', 'ge': '>='}[nm.rsplit('::', 1)[1]]
+                        rel = (r0, gx.o.op_str(d[1]['args'][0]), gx.o.op_str(d[1]['args'][1]))
+                    else:
+                        rel = ('truth', gx.o.def_str(d, 0), '')
+                if rel:
+                    key = canonical_condition(rel)
+                    if key:
+                        fl = fn['loc'].rsplit(':', 1)[0]
+                        key = 'returns ' + key
+                        out.setdefault(fl, {})
+                        out[fl][key] = out[fl].get(key, 0) + 1
+                        hints.setdefault(fl, {}).setdefault(key, set()).add(owner_qual(P, fn))
         for bi, b in enumerate(body.B):
             t = b['term']
             if b.get('cu'):
